@@ -124,6 +124,14 @@ def install():
     _set(rpyc.lib, "random", frandom)
     # identity on the wire
     _set(rpyc.lib, "id", det_id)
+    # finalizers that run while a task is being unwound at run end raise SimKilled: not worth a stderr report
+    old_hook = sys.unraisablehook
+
+    def hook(u):
+        if u.exc_type is core.SimKilled:
+            return
+        old_hook(u)
+    sys.unraisablehook = hook
     _installed = True
     return MODS
 
